@@ -1,5 +1,150 @@
-import XlVerif.Base
-/-! Driver for C10 (stub: replaced when the property's model is built). -/
+import XlVerif.Drv.EvalWire
+import XlVerif.Model.C10
+import XlVerif.Spec.C10
+/-! Driver for C10.
+  `C10 eval <fuel> <cells> <ranges> <names> <entry addr> <entry formula length> <Lx wire>` →
+     `impl=<result>  log=<k,…>  impl2=<result|->  log2=<k,…|->  spec=<value|FAIL|UNDEF>  slog=<k,…>`
+  * `impl`, `log`  : `Model.C10.evaluateLx` (the bodies of logical.py on thunks, entry cell holding the formula);
+                     the log is the trace with inline spies `#k ↦ k` and formula cells `↦ 1000 + index in <cells>`
+                     (the entry cell itself is not logged)
+  * `impl2`, `log2`: the same formula through `Fx.iff` / `Fx.sc` of the shared evaluator model when it is
+                     expressible there (no spy, no omitted branch) — must coincide with `impl`
+  * `spec`, `slog` : `Spec.C10.eval`, the reference interpreter written from the statement
+  Lx wire (blank separated): `[ app <id> lx… ]` `[ if3 lx lx lx ]` `[ if2 lx lx ]` `[ if1 lx ]` `[ and lx… ]`
+  `[ or lx… ]` `[ not lx ]` `[ spy <k> lx ]` `[ fail <n> lx… ]`; a leaf is an Fx wire `( … )`.
+-/
 namespace XlVerif.Drv.C10
-def handle (_fields : List String) : String := "error=not-implemented"
+open XlVerif XlVerif.Model.Evaluator XlVerif.Drv.EvalWire XlVerif.Model.C10
+
+/-- `stdSem` with the truth function of logical.py and NOT as strict function 11 -/
+def c10Sem : Sem where
+  app := fun g vs =>
+    if g = 11 then (match vs with | [v] => .val (notV v) | _ => .raiseOther 10) else stdSem.app g vs
+  truth := truthOf
+
+partial def parseLx : List String → Option (Lx × List String)
+  | "[" :: "app" :: n :: rest => do
+      let k ← n.toNat?
+      let (args, r) ← parseLxs rest
+      pure (.app k args, r)
+  | "[" :: "if3" :: rest => do
+      let (a, r1) ← parseLx rest
+      let (b, r2) ← parseLx r1
+      let (d, r3) ← parseLx r2
+      match r3 with | "]" :: r4 => pure (.if3 a b d, r4) | _ => none
+  | "[" :: "if2" :: rest => do
+      let (a, r1) ← parseLx rest
+      let (b, r2) ← parseLx r1
+      match r2 with | "]" :: r3 => pure (.if2 a b, r3) | _ => none
+  | "[" :: "if1" :: rest => do
+      let (a, r1) ← parseLx rest
+      match r1 with | "]" :: r2 => pure (.if1 a, r2) | _ => none
+  | "[" :: "and" :: rest => do let (args, r) ← parseLxs rest; pure (.andor true args, r)
+  | "[" :: "or" :: rest => do let (args, r) ← parseLxs rest; pure (.andor false args, r)
+  | "[" :: "not" :: rest => do
+      let (a, r1) ← parseLx rest
+      match r1 with | "]" :: r2 => pure (.not a, r2) | _ => none
+  | "[" :: "spy" :: n :: rest => do
+      let k ← n.toNat?
+      let (a, r1) ← parseLx rest
+      match r1 with | "]" :: r2 => pure (.spy k a, r2) | _ => none
+  | "[" :: "fail" :: n :: rest => do
+      let k ← n.toNat?
+      let (args, r) ← parseLxs rest
+      pure (.fail k args, r)
+  | toks@("(" :: _) => (parseFx toks).map fun (f, r) => (.fx f, r)
+  | _ => none
+where
+  parseLxs : List String → Option (List Lx × List String)
+    | "]" :: rest => some ([], rest)
+    | toks => do
+        let (a, r1) ← parseLx toks
+        let (as, r2) ← parseLxs r1
+        pure (a :: as, r2)
+
+def lxOfWire? (w : String) : Option Lx :=
+  match parseLx (w.splitOn " ") with
+  | some (f, []) => some f
+  | _ => none
+
+/-- log entry of a trace element: inline spy `#k ↦ k`, formula cell ↦ 1000 + its index in the cell list -/
+def logOf (m : MState) (entry : Addr) (tr : List Addr) : List Nat :=
+  tr.filterMap fun a =>
+    if a = entry then none else
+    match a with
+    | '#' :: ds => (String.ofList ds).toNat?
+    | _ => some (1000 + (m.cells.findIdx fun p => p.1 = a))
+
+def showLog (l : List Nat) : String := ",".intercalate (l.map toString)
+
+/-! translation into the reference interpreter's expressions -/
+abbrev SE := Spec.C10.E
+
+def opOut (g : Nat) (vs : List V) : Spec.C10.Out Unit :=
+  match c10Sem.app g vs with
+  | .val v => .val v
+  | _ => .fail ()
+
+mutual
+partial def fxToE (m : MState) (entry : Addr) (depth : Nat) : Fx → SE
+  | .lit v => .const v
+  | .ref a => refToE m entry depth a
+  | .rng k =>
+    (match m.range? k with
+     | some r => .arr (r.cells.flatten.map (refToE m entry depth))
+     | none => refToE m entry depth k)
+  | .app g args => .strict g (args.map (fxToE m entry depth))
+  | .iff c t e => .if3 (fxToE m entry depth c) (fxToE m entry depth t) (fxToE m entry depth e)
+  | .sc isAnd args => .andor isAnd (args.map (fxToE m entry depth))
+  | .fail _ _ => .poison
+partial def refToE (m : MState) (entry : Addr) (depth : Nat) (a : Addr) : SE :=
+  let a' := m.resolve a
+  if a' = entry then .poison else
+  match m.cell? a' with
+  | none => .const (.s .blank)
+  | some cell =>
+    match cell.formula with
+    | none => .const cell.value
+    | some f =>
+      if depth = 0 then .poison
+      else .spy (1000 + (m.cells.findIdx fun p => p.1 = a')) (fxToE m entry (depth - 1) f)
+end
+
+partial def lxToE (m : MState) (entry : Addr) : Lx → SE
+  | .fx f => fxToE m entry 12 f
+  | .app g args => .strict g (args.map (lxToE m entry))
+  | .if3 a b d => .if3 (lxToE m entry a) (lxToE m entry b) (lxToE m entry d)
+  | .if2 a b => .if2 (lxToE m entry a) (lxToE m entry b)
+  | .if1 a => .if1 (lxToE m entry a)
+  | .andor isAnd args => .andor isAnd (args.map (lxToE m entry))
+  | .not a => .not (lxToE m entry a)
+  | .spy k a => .spy k (lxToE m entry a)
+  | .fail _ _ => .poison
+
+def outW : Spec.C10.Out Unit → String
+  | .val v => v.wire
+  | .fail _ => "FAIL"
+  | .undef => "UNDEF"
+
+def handle (fields : List String) : String :=
+  match fields with
+  | ["eval", fuel, cells, ranges, names, addr, len, lxw] =>
+    (match fuel.toNat?, modelOfWire? cells ranges names, parseText? addr, len.toNat?, lxOfWire? lxw with
+     | some n, some m0, some a, some ln, some f =>
+       -- the entry cell is a formula cell of the model (a placeholder formula: only its being one matters)
+       let entryCell : Cell := { value := .s .blank, formula := some (.lit (.s .blank)), formulaLen := ln }
+       let m : MState := { m0 with cells := m0.cells ++ [(a, entryCell)] }
+       let (r, tr) := evaluateLx c10Sem n m a ln f
+       let (r2, l2) : String × String :=
+         match f.toFx? with
+         | some g =>
+           let m2 : MState := { m0 with cells := m0.cells ++ [(a, { entryCell with formula := some g })] }
+           let (_, r2, tr2) := evaluate c10Sem (n + 1) m2 a
+           (resW r2, showLog (logOf m a tr2))
+         | none => ("-", "-")
+       let (slog, so) := Spec.C10.eval opOut (lxToE m a f) []
+       kv [("impl", resW r), ("log", showLog (logOf m a tr)), ("impl2", r2), ("log2", l2),
+           ("spec", outW so), ("slog", showLog slog)]
+     | _, _, _, _, _ => "error=bad-args")
+  | _ => "error=bad-request"
 end XlVerif.Drv.C10
